@@ -522,7 +522,8 @@ def rule_action(run: Run, prog: Program) -> int:
                 res = [l_ for i, l_ in enumerate(la) if i not in ax_a] + [l_ for j, l_ in enumerate(lb) if j not in ax_b]
                 return absint.Arr(len(res), "f", tuple(res))
 
-            it = absint.Interp(prog, np_extra={"einsum": einsum, "matmul": np_matmul, "tensordot": np_tensordot}, max_steps=60000, max_depth=14)
+            linalg = absint.Capture("np.linalg", (), {}, inv=lambda a_, **kw_: inv_override([a_], kw_))
+            it = absint.Interp(prog, np_extra={"einsum": einsum, "matmul": np_matmul, "tensordot": np_tensordot, "linalg": linalg}, max_steps=60000, max_depth=14)
             it.function_overrides[inv_fn.qualname] = inv_override
             what = f"x with {f} collection axes and index types {types!r} under a {'collection of transformations' if tf else 'transformation'}"
             try:
